@@ -505,6 +505,9 @@ type Step struct {
 	Idx    int  `json:"idx"`
 	WaitMs int  `json:"wait_ms,omitempty"`
 	SetAck bool `json:"set_ack,omitempty"`
+	// Poll: wait (loop mode: frames are processed asynchronously) until the connection
+	// shows up in the state table; only for the segment right after the SYN
+	Poll bool `json:"poll,omitempty"`
 	AckRel int  `json:"ack_rel,omitempty"`
 }
 
@@ -524,7 +527,10 @@ func prepare(v *canary.VerifCanary, in HistIn, idx int, f []byte) []byte {
 			dst := net.IPv4(f[30], f[31], f[32], f[33])
 			sport := uint16(f[34])<<8 | uint16(f[35])
 			dport := uint16(f[36])<<8 | uint16(f[37])
-			deadline := time.Now().Add(10 * time.Second)
+			deadline := time.Now()
+			if st.Poll && in.Mode == "loop" {
+				deadline = deadline.Add(15 * time.Second)
+			}
 			for {
 				if si := v.State(src, dst, sport, dport); si != nil {
 					g := append([]byte(nil), f...)
@@ -1310,6 +1316,7 @@ func main() {
 	hdist := map[string]int{}
 	var hcases []hx.Case
 	// child-process cases run beside the in-process ones
+	slow := 0
 	hobs := make([]HistObs, len(hins))
 	hcrash := make([]string, len(hins))
 	var wg sync.WaitGroup
@@ -1340,7 +1347,14 @@ func main() {
 	}
 	for i := range hins {
 		if !isChild(hins[i]) {
+			t0 := time.Now()
 			hobs[i] = runInject(hins[i])
+			if d := time.Since(t0); d > 3*time.Second {
+				slow++
+				if os.Getenv("C02_DEBUG") != "" {
+					fmt.Fprintf(os.Stderr, "slow case %d (%s): %v\n", i, hins[i].Note, d)
+				}
+			}
 		}
 	}
 	wg.Wait()
@@ -1372,6 +1386,7 @@ func main() {
 		}
 		hcases = append(hcases, hx.Case{ID: i, Kind: kind, Input: replayIn{Part: "hist", Hist: &hins[i]}, Obs: ob, Crash: crash, Coq: coqHist(i, in, ob)})
 	}
+	hdist["slow-cases-over-3s"] = slow
 	if len(hins) > 0 || o.Only == "" {
 		hx.Write(o, "C02", "hist", "From HT Require Import Common.Bytes C02.Model C02.Check.\n"+
 			"Definition case := hcase.\nDefinition mismatches := h_mismatches.\nDefinition violations := h_violations.\nDefinition tags := h_tags.",
